@@ -45,7 +45,7 @@ def handleR14 (toks : List String) : String :=
     let arg? : Option (Option (List Char)) := if arg == "N" then some none else (parseText arg).map some
     match arg?, parseBytes inp with
     | some arg, some inpBytes =>
-      "M " ++ runSession (Cmd.Reader.from arg (inpBytes.map UInt8.ofNat)) #[] ++
+      "M " ++ runSession (Cmd.Reader.from arg (inpBytes.map UInt8.ofNat)) ++
         (match parseText inp with
          | some b => " ;; S " ++ specSession arg b
          | none => "")          -- standard input that is not UTF-8: outside the property (I9)
